@@ -1,13 +1,13 @@
 """C15: Walker.walk returns the unique tree path between two nodes."""
 from contracts import mixins, walker
-from pyvc import heapworld
+from pyvc import driver, heapworld
 
 from . import common, heap_props
 
 NEED = [("parent", "getter"), ("iter_path_reverse", "method"), ("_path", "getter"), ("path", "getter"), ("root", "getter")]
 LEMMAS = [{"id": "L2", "statement": "identity-filter over the zip of two sequences whose agreeing positions are downward closed = "
-           "their common prefix (exists k: equal below k, different at k)", "status": "assumed bridge (list lemma, Lean pending); "
-           "its premise is an obligation at the use site"}]
+           "their common prefix (exists k: equal below k, different at k)", "status": driver.lean_status("L2_zip_filter_prefix.lean") +
+           "; its premise is an obligation at the use site"}]
 
 
 def collect(res):
